@@ -1,7 +1,9 @@
 import RTV.Lemmas.DtRes
+import RTV.Lemmas.DateWords
 import RTV.Gen.DtMaps
 import RTV.Gen.DtMapsX1
 import RTV.Gen.DtMapsX2
+import RTV.Gen.DateWords
 /-!
 # C06 — absolute calendar dates are recognised exactly, whatever the reference date
 
@@ -10,10 +12,12 @@ guard, `DateTimeFormatUtil.luis_date/format_date`, `BaseMergedParser._date_time_
 through what its named groups decode to (`Decodes`): the `month` group is a key of the culture's `month_of_year`
 with value `mo`, the `day` group a key of `day_of_month` with value `d`, the `year` group a digit string read as `y`
 — so the statements cover every layout, every spelling in the tables and every culture that uses `BaseDateParser`.
-The tables and the two-digit-year pivots are the regenerated `RTV/Gen/DtMaps*.lean`.
+The tables and the two-digit-year pivots are the regenerated `RTV/Gen/DtMaps*.lean`. What the WORDS of the tables mean
+(`enero` = 1, `märz` = 3, `三月` = 3 …) is fixed by the committed contract `contracts/C06words.json`
+(`RTV/Gen/DateWords.lean`), see "Word contract" below.
 -/
 namespace RTV.DtRes
-open RTV.Py RTV.Cal RTV.Gen.DtMaps
+open RTV.Py RTV.Cal RTV.Gen.DtMaps RTV.Gen.DateWords
 
 /-- a date-parser configuration with the working tree's pivot constants and any month / day tables -/
 def genCfg (moy dom : List (Str × Nat)) : DateCfg :=
@@ -73,10 +77,21 @@ theorem two_digit_year (u : Uni) (moy dom : List (Str × Nat)) (g : DateGroups) 
     have hmin : (yy : Int) < (genCfg moy dom).minTwoDigitYearPast := by simp only [genCfg]; omega
     exact resolveDate_valid u _ g yy mo d (2000 + yy) wy R h (pivot_future _ yy hmin hmax) (by omega) (by omega) hv
 
-/-- … and a two-digit year between the pivots is taken literally (year 00yy), outside 1900–2099. -/
-theorem two_digit_year_gap (moy dom : List (Str × Nat)) (yy : Nat)
-    (h1 : maxTwoDigitYearFutureNum ≤ (yy : Int)) (h2 : (yy : Int) < minTwoDigitYearPastNum) :
-    pivotYear (genCfg moy dom) yy = (yy : Int) := pivot_gap _ yy h2 h1
+/-- … and a two-digit year between the pivots (`maxTwoDigitYearFutureNum ≤ yy < minTwoDigitYearPastNum`, 30..39 on the
+current constants) is taken literally: the pivot leaves it alone and `match_to_date` succeeds with the TIMEX of the
+year 00yy (`ymd yy mo d`, four-digit padded) and the calendar date `yy-mo-d` (or `min_value` when it does not exist) as
+both values — a date outside 1900–2099. (The merged resolution of one such date is `two_digit_year_witness`.) -/
+theorem two_digit_year_gap (u : Uni) (moy dom : List (Str × Nat)) (g : DateGroups) (yy mo d : Nat)
+    (h : Decodes u (genCfg moy dom) g yy mo d)
+    (h1 : maxTwoDigitYearFutureNum ≤ (yy : Int)) (h2 : (yy : Int) < minTwoDigitYearPastNum) (wy : Int) (R : DT) :
+    pivotYear (genCfg moy dom) yy = (yy : Int) ∧
+    matchToDate u (genCfg moy dom) g wy R =
+      .ok { success := true, timex := ymd yy mo d,
+            future := (safeCreateFromMinValue yy mo d).getD minValue,
+            past := (safeCreateFromMinValue yy mo d).getD minValue } := by
+  have hp : pivotYear (genCfg moy dom) yy = (yy : Int) := pivot_gap _ yy h2 h1
+  have hpos : (1 : Int) ≤ maxTwoDigitYearFutureNum := by decide
+  exact ⟨hp, matchToDate_of u _ g yy mo d yy wy R h hp (by omega)⟩
 
 /-- Negative witness just outside the interval: `3/5/30` resolves to the year 0030. -/
 theorem two_digit_year_witness :
@@ -105,13 +120,17 @@ example : Decodes asciiUni enCfg { year := [50, 48, 49, 57], month := [102, 101,
 
 /-! ## Table facts (re-checked against the regenerated tables on every run) -/
 
-/-- every value of the month map is a month, and the numeric spellings `m` and `0m` are the identity on 1..12 -/
+/-- every value of the month map is a month, the numeric spellings `m` and `0m` are the identity on 1..12, and every key
+that starts with digits (`3`, `03`, the German `3.`) maps to that number; what the WORD keys mean is the word contract
+below (`month_words_*`) -/
 def monthMapOK (tbl : List (Str × Nat)) : Bool :=
   tbl.all (fun p => 1 ≤ p.2 && p.2 ≤ 12) &&
-  (List.range 12).all (fun i => lookup tbl (decStr (i + 1)) == some (i + 1) && lookup tbl (fmtD 2 ((i + 1 : Nat) : Int)) == some (i + 1))
+  (List.range 12).all (fun i => lookup tbl (decStr (i + 1)) == some (i + 1) && lookup tbl (fmtD 2 ((i + 1 : Nat) : Int)) == some (i + 1)) &&
+  tbl.all (fun p => match leadingNum p.1 with | none => true | some n => n == p.2)
 
 /-- every value of the day map is a day number, the numeric spellings `d` and `0d` are the identity on 1..31, and
-every key that starts with digits (ordinal-suffixed keys such as `5th`, `22nd`, `1er`) maps to that number -/
+every key that starts with digits (ordinal-suffixed keys such as `5th`, `22nd`, `1er`) maps to that number; which
+suffixed keys must exist and what the WORD keys (German ordinal stems) mean is the word contract below (`day_words_*`) -/
 def dayMapOK (tbl : List (Str × Nat)) : Bool :=
   tbl.all (fun p => 1 ≤ p.2 && p.2 ≤ 31) &&
   (List.range 31).all (fun i => lookup tbl (decStr (i + 1)) == some (i + 1) && lookup tbl (fmtD 2 ((i + 1 : Nat) : Int)) == some (i + 1)) &&
@@ -162,9 +181,11 @@ theorem numeric_keys_zh :
 def zhDateCfg : DateCfg := genCfg monthOfYear_zh dayOfMonth_zh
 
 /-- C06 for the Chinese parser: a date 1900–2099 that exists, in any layout whose `month` / `day` groups are keys of the
-Chinese tables (digits, `3月`, `三月`, `十五`, `5日`, `五号` …; values reduced as `get_month_of_year` / `get_day_of_month`
-do) and whose year is a digit group or a 汉字 year converted by `convert_chinese_year_to_number` (input of the model),
-resolves to exactly `YYYY-MM-DD`, for every reference. -/
+Chinese tables and whose year is a digit group or a 汉字 year converted by `convert_chinese_year_to_number` (input of the
+model), resolves to exactly `YYYY-MM-DD`, for every reference. NOTE the hypothesis `DecodesZh` speaks of the table value
+AFTER the reduction of `get_month_of_year` / `get_day_of_month` (`zhReduce 12 mv = mo`, `zhReduce 31 dv = d`): this
+statement alone does not say which number a given key (`三月`, `正月`, `初一`) stands for. That is `month_words_zh` /
+`day_words_zh` (word contract), and `abs_date_zh_words` below is the statement with no reduction in its hypotheses. -/
 theorem abs_date_zh (u : Uni) (g : DateGroups) (chsYear : Int) (y mo d : Nat)
     (h : DecodesZh u zhDateCfg g chsYear y mo d) (hy : 1900 ≤ y ∧ y ≤ 2099) (hv : (⟨y, mo, d⟩ : Date).valid = true)
     (R : DT) :
@@ -189,5 +210,75 @@ theorem zh_tables :
     (List.range 31).all (fun i => lookup dayOfMonth_zh (decStr (i + 1) ++ [26085]) == some (i + 1) &&
                                   lookup dayOfMonth_zh (decStr (i + 1) ++ [21495]) == some (i + 1)) = true := by
   decide +kernel
+
+/-! ## Word contract (`contracts/C06words.json`, committed, written independently of the tree → `RTV/Gen/DateWords.lean`)
+
+For every culture: each REQUIRED word of the contract (all full month names, the English three-letter forms, the
+suffixed day spellings the contract layouts use, the 汉字 month / day numerals) is a key of the tree's regenerated table
+with exactly the contract's number, and each PINNED word (abbreviations, unaccented / regional spellings, German ordinal
+stems) that is a key has the contract's number. A resource edit `"enero": 2`, `"févr": 3`, `"okt": 9` breaks these. -/
+
+theorem month_words_en : wordsPresent id monthOfYear_en monthRequired_en = true ∧ wordsPinned id monthOfYear_en monthPinned_en = true := by decide +kernel
+theorem month_words_es : wordsPresent id monthOfYear_es monthRequired_es = true ∧ wordsPinned id monthOfYear_es monthPinned_es = true := by decide +kernel
+theorem month_words_esmx : wordsPresent id monthOfYear_esmx monthRequired_esmx = true ∧ wordsPinned id monthOfYear_esmx monthPinned_esmx = true := by decide +kernel
+theorem month_words_fr : wordsPresent id monthOfYear_fr monthRequired_fr = true ∧ wordsPinned id monthOfYear_fr monthPinned_fr = true := by decide +kernel
+theorem month_words_pt : wordsPresent id monthOfYear_pt monthRequired_pt = true ∧ wordsPinned id monthOfYear_pt monthPinned_pt = true := by decide +kernel
+theorem month_words_it : wordsPresent id monthOfYear_it monthRequired_it = true ∧ wordsPinned id monthOfYear_it monthPinned_it = true := by decide +kernel
+theorem month_words_de : wordsPresent id monthOfYear_de monthRequired_de = true ∧ wordsPinned id monthOfYear_de monthPinned_de = true := by decide +kernel
+theorem month_words_nl : wordsPresent id monthOfYear_nl monthRequired_nl = true ∧ wordsPinned id monthOfYear_nl monthPinned_nl = true := by decide +kernel
+/-- Chinese: the meaning is the value after `get_month_of_year`'s reduction (`正月` is stored as 13 and means 1) -/
+theorem month_words_zh : wordsPresent (zhReduce 12) monthOfYear_zh monthRequired_zh = true ∧
+    wordsPinned (zhReduce 12) monthOfYear_zh monthPinned_zh = true := by decide +kernel
+
+theorem day_words_en : wordsPresent id dayOfMonth_en dayRequired_en = true ∧ wordsPinned id dayOfMonth_en dayPinned_en = true := by decide +kernel
+theorem day_words_es : wordsPresent id dayOfMonth_es dayRequired_es = true ∧ wordsPinned id dayOfMonth_es dayPinned_es = true := by decide +kernel
+theorem day_words_esmx : wordsPresent id dayOfMonth_esmx dayRequired_esmx = true ∧ wordsPinned id dayOfMonth_esmx dayPinned_esmx = true := by decide +kernel
+theorem day_words_fr : wordsPresent id dayOfMonth_fr dayRequired_fr = true ∧ wordsPinned id dayOfMonth_fr dayPinned_fr = true := by decide +kernel
+theorem day_words_pt : wordsPresent id dayOfMonth_pt dayRequired_pt = true ∧ wordsPinned id dayOfMonth_pt dayPinned_pt = true := by decide +kernel
+theorem day_words_it : wordsPresent id dayOfMonth_it dayRequired_it = true ∧ wordsPinned id dayOfMonth_it dayPinned_it = true := by decide +kernel
+theorem day_words_de : wordsPresent id dayOfMonth_de dayRequired_de = true ∧ wordsPinned id dayOfMonth_de dayPinned_de = true := by decide +kernel
+theorem day_words_nl : wordsPresent id dayOfMonth_nl dayRequired_nl = true ∧ wordsPinned id dayOfMonth_nl dayPinned_nl = true := by decide +kernel
+/-- Chinese: the meaning is the value after `get_day_of_month`'s reduction (`初一` is stored as 32 and means 1) -/
+theorem day_words_zh : wordsPresent (zhReduce 31) dayOfMonth_zh dayRequired_zh = true ∧
+    wordsPinned (zhReduce 31) dayOfMonth_zh dayPinned_zh = true := by decide +kernel
+
+/-- the contract is not empty where it matters: twelve distinct month numbers are required of every culture -/
+theorem month_words_cover :
+    [monthRequired_en, monthRequired_es, monthRequired_esmx, monthRequired_fr, monthRequired_pt, monthRequired_it,
+     monthRequired_de, monthRequired_nl, monthRequired_zh].all
+      (fun c => (List.range 12).all (fun i => c.any (fun p => p.2 == i + 1))) = true := by decide +kernel
+
+/-- C06 on a month WORD: in any `BaseDateParser` culture whose month table meets a word list `c` (`wordsPresent`, e.g.
+`month_words_es`), a layout whose `month` group is a word of `c` with contract meaning `mo` (`enero` ↦ 1), whose `day`
+group is a key of the day table with value `d` and whose year is a digit group read as `y` ∈ 1900..2099 resolves to exactly
+`YYYY-MM-DD` of the CONTRACT's month number, for every reference. -/
+theorem abs_date_month_word (u : Uni) (moy dom c : List (Str × Nat)) (hc : wordsPresent id moy c = true)
+    (g : DateGroups) (y mo d : Nat) (hw : (g.month, mo) ∈ c) (hd : lookup dom g.day = some d)
+    (hf : g.fullYear = []) (hyr : IsNum u g.year y) (hy : 1900 ≤ y ∧ y ≤ 2099) (hv : (⟨y, mo, d⟩ : Date).valid = true)
+    (wy : Int) (R : DT) :
+    resolveDate u (genCfg moy dom) g wy R =
+      .ok (some [{ timex := ymd y mo d, type := sDate, value := some (ymd y mo d) }]) :=
+  abs_date u moy dom g y mo d ⟨wordsPresent_lookup_id moy c hc g.month mo hw, hd, hf, hyr⟩ hy hv wy R
+
+/-- `5 de enero de 2019` (groups `enero`, `5`, `2019`) on the Spanish tables: 2019-01-05 because the CONTRACT says enero = 1 -/
+example (wy : Int) (R : DT) :
+    resolveDate asciiUni (genCfg monthOfYear_es dayOfMonth_es)
+        { year := [50, 48, 49, 57], month := [101, 110, 101, 114, 111], day := [53] } wy R =
+      .ok (some [{ timex := ymd 2019 1 5, type := sDate, value := some (ymd 2019 1 5) }]) :=
+  abs_date_month_word asciiUni _ _ monthRequired_es month_words_es.1 _ 2019 1 5 (by decide) (by decide) rfl
+    ⟨by decide, by decide, by decide⟩ (by decide) (by decide) wy R
+
+/-- C06 for the Chinese parser on contract words, with no reduction in the hypotheses: a `month` group that is a required
+month word of the contract with meaning `mo` (`三月`, `3月` ↦ 3), a `day` group that is a required day word with meaning `d`
+(`5日`, `五号`, `十五` …), a digit year `y` ∈ 1900..2099 — resolves to exactly `YYYY-MM-DD`, for every reference. -/
+theorem abs_date_zh_words (u : Uni) (g : DateGroups) (chsYear : Int) (y mo d : Nat)
+    (hm : (g.month, mo) ∈ monthRequired_zh) (hd : (g.day, d) ∈ dayRequired_zh)
+    (hyr : IsNum u g.year y ∨ (blank u g.year = true ∧ chsYear = (y : Int)))
+    (hy : 1900 ≤ y ∧ y ≤ 2099) (hv : (⟨y, mo, d⟩ : Date).valid = true) (R : DT) :
+    resolveDateZh u zhDateCfg g chsYear R =
+      .ok (some [{ timex := ymd y mo d, type := sDate, value := some (ymd y mo d) }]) :=
+  abs_date_zh u g chsYear y mo d
+    ⟨wordsPresent_lookup _ _ _ month_words_zh.1 g.month mo hm, wordsPresent_lookup _ _ _ day_words_zh.1 g.day d hd, hyr⟩
+    hy hv R
 
 end RTV.DtRes
